@@ -490,7 +490,9 @@ func parseRESP(r *bufio.Reader) ([][]byte, error) {
 		if line == "" {
 			return nil, nil
 		}
-		fields := strings.Fields(line)
+		// Inline arguments are separated by ASCII blanks. strings.Fields would also split on
+		// every Unicode space (U+3000, U+00A0, ...) and cut such an argument in two.
+		fields := strings.FieldsFunc(line, func(r rune) bool { return r == ' ' || r == '\t' })
 		out := make([][]byte, len(fields))
 		for i, f := range fields {
 			out[i] = []byte(f)
